@@ -115,6 +115,20 @@ def run(ctx):
         ctx.inst("I2", nxt, creates[0], "strategy generator created once, on first use, and kept")
     else:
         ctx.viol("I2", nxt, nxt.node, "the strategy generator is not created exactly once (when the stored one is None) and kept", construct="AbstractIter.__next__ start-up")
+    # the shared start-up hands over to the strategy on every path (a short cut that answers itself yields a flat
+    # sequence where the group iterators owe tuples, or skips the strategy's order)
+    ini = p.func("AbstractIter", "__init")
+    ctx.touch(ini)
+    irets = [r for r in walk_own(ini.node) if isinstance(r, ast.Return)]
+    bad = [r for r in irets if not (isinstance(resolve_local(ini, r.value), ast.Call)
+                                    and norm(resolve_local(ini, r.value).func) == "%s._iter" % ini.selfname)]
+    if not irets or bad:
+        ctx.viol("I2", ini, bad[0] if bad else ini.node, "AbstractIter.__init returns `%s` instead of the strategy generator "
+                 "self._iter(...): on that path the items are not produced by the iterator's own strategy (order, grouping)" % (
+                     norm(bad[0].value) if bad and bad[0].value is not None else "nothing"), construct="AbstractIter.__init return")
+    else:
+        for r in irets:
+            ctx.inst("I2", ini, r, "start-up returns the strategy generator")
     # ---------------------------------------------------------------- ZigZag
     zz = p.func("ZigZagGroupIter", "_iter")
     ctx.touch(zz)
